@@ -59,11 +59,11 @@ var menu = []ser{
 	{"ms", "a", []string{"t", "k:v"}, "h", []float64{0.5, 8}},
 	{"ms", "th", []string{"gsd_histogram:1_5"}, "h", []float64{0.5, 3, 7}},
 	{"ms", "th", []string{"gsd_histogram:2", "k:v"}, "", []float64{2, 9}},
-	{"ms", "th3", []string{"gsd_histogram:1_5", "k:v"}, "h", []float64{0.5, 3, 7}},
+	{"ms", "th3", []string{"gsd_histogram:1_5", "k:v"}, "h", []float64{7, 0.5, 3}}, // values of a histogram-tagged timer stay in arrival order
 	{"ms", "th5", []string{"gsd_histogram:1_5", "k:v", "t", "u:w"}, "h", []float64{0.5, 7}},
 	{"c", "many", manyTags, "", []float64{6}},
 	{"g", "a", []string{"a/b:c d"}, "", []float64{10}},
-	{"c", "Z", []string{"unnamed:u", "x"}, "src2", []float64{9}},
+	{"c", "Z", []string{"unnamed:u", "x", "peer:10.0.0.1:8080"}, "src2", []float64{9}},
 }
 
 type mapSpec struct {
@@ -132,6 +132,15 @@ type entry struct {
 	Tags []string // rendered as the backend renders them, sorted
 	Host string
 	Vals []float64
+	Hist *histDP `json:",omitempty"` // OTLP histogram data point, field by field
+}
+
+type histDP struct {
+	Count          uint64
+	Sum, Min, Max  float64
+	HasMin, HasMax bool
+	Buckets        []uint64
+	Bounds         []float64
 }
 
 func (e entry) key() string {
@@ -146,6 +155,7 @@ type capture struct {
 	entries  []entry
 	payloads int
 	problems []string
+	mutated  string // the backend changed the aggregate it was handed
 }
 
 func (c *capture) bad(format string, a ...any) {
@@ -188,7 +198,7 @@ func decodeDatadog(c *capture, body []byte, batch int) {
 			c.bad("datadog series %s has %d points", s.Metric, len(s.Points))
 			continue
 		}
-		c.entries = append(c.entries, entry{s.Metric, sortedCopy(s.Tags), s.Host, []float64{s.Points[0][1]}})
+		c.entries = append(c.entries, entry{Name: s.Metric, Tags: sortedCopy(s.Tags), Host: s.Host, Vals: []float64{s.Points[0][1]}})
 	}
 }
 
@@ -403,6 +413,7 @@ func decodeOTLP(c *capture, body []byte, batch int) {
 							vals = append(vals, float64(b))
 						}
 						add(dp.Attributes, vals...)
+						c.entries[len(c.entries)-1].Hist = &histDP{Count: dp.Count, Sum: dp.GetSum(), Min: dp.GetMin(), Max: dp.GetMax(), HasMin: dp.Min != nil, HasMax: dp.Max != nil, Buckets: dp.BucketCounts, Bounds: dp.ExplicitBounds}
 					}
 				default:
 					c.bad("otlp metric %s has no data", m.Name)
@@ -447,6 +458,25 @@ type runKey struct {
 	ms    string
 }
 
+// aggregateString renders everything a backend can read from the aggregate, values in the order they are stored
+func aggregateString(mm *gostatsd.MetricMap) string {
+	var o []string
+	mm.Counters.Each(func(n, k string, c gostatsd.Counter) {
+		o = append(o, fmt.Sprintf("c %s[%s] %v %v %v", n, k, c.Value, c.PerSecond, c.Tags))
+	})
+	mm.Gauges.Each(func(n, k string, g gostatsd.Gauge) {
+		o = append(o, fmt.Sprintf("g %s[%s] %v %v", n, k, g.Value, g.Tags))
+	})
+	mm.Sets.Each(func(n, k string, s gostatsd.Set) {
+		o = append(o, fmt.Sprintf("s %s[%s] %d %v", n, k, len(s.Values), s.Tags))
+	})
+	mm.Timers.Each(func(n, k string, t gostatsd.Timer) {
+		o = append(o, fmt.Sprintf("ms %s[%s] values %v count %v min %v max %v sum %v mean %v median %v pct %v hist %v tags %v", n, k, t.Values, t.Count, t.Min, t.Max, t.Sum, t.Mean, t.Median, t.Percentiles, t.Histogram, t.Tags))
+	})
+	sort.Strings(o)
+	return strings.Join(o, "; ")
+}
+
 func runBackend(kind string, batch int, ms mapSpec, mm *gostatsd.MetricMap) (*capture, mapref.Agg, string) {
 	res.Evaluations++
 	d, sub := disabled(ms.Mask)
@@ -482,11 +512,16 @@ func runBackend(kind string, batch int, ms mapSpec, mm *gostatsd.MetricMap) (*ca
 		// whatever the backend sends must have been taken from the map before it returned
 		work := gostatsd.NewMetricMap(false)
 		work.Merge(mm)
+		before := aggregateString(work)
 		b.Backend.SendMetricsAsync(ctx, work, func(errs []error) {
 			if !vsched.Aborting() {
 				cbs++
 			}
 		})
+		// the aggregate is shared: every backend of the server is handed the same map, side by side
+		if after := aggregateString(work); after != before {
+			c.mutated = fmt.Sprintf("before the call: %s\nafter the call:  %s", before, after)
+		}
 		overwrite(work)
 		vsched.Quiesce("sent")
 	})
@@ -798,6 +833,9 @@ func checkMap(ms mapSpec, kinds []string) {
 			for _, p := range c.problems {
 				bad("malformed-or-limit", p)
 			}
+			if c.mutated != "" {
+				bad("aggregate-changed", "SendMetricsAsync changed the aggregate it was handed (the other backends are handed the same map):\n"+c.mutated)
+			}
 			cur := multiset(c.entries)
 			if len(c.entries) >= 2 {
 				nontrivial[kind+fmt.Sprint(batch)+specString(ms)] = struct{}{}
@@ -856,6 +894,46 @@ func checkMap(ms mapSpec, kinds []string) {
 			}
 			if d := diffMultiset(base, union); d != "" && !collides(ms) {
 				res.Violate("series-not-independent "+kind, fmt.Sprintf("backend %s map %s (%v): entries of the map differ from the union of its series' own entries: %s", kind, specString(ms), describe(ms), d), map[string]any{"spec": ms, "kind": kind, "batch": 0})
+			}
+		}
+		// single timer series converted to an OTLP histogram data point: count, sum, min, max and bucket counts
+		if len(ms.Series) == 1 && kind == "otlp-histogram" && menu[ms.Series[0]].Type == "ms" {
+			s := menu[ms.Series[0]]
+			var hs []*histDP
+			for _, e := range baseEntries {
+				if e.Hist != nil {
+					hs = append(hs, e.Hist)
+				}
+			}
+			rp := map[string]any{"spec": ms, "kind": kind, "batch": 0}
+			if len(hs) != 1 {
+				res.Violate("otlp-histogram-points "+kind, fmt.Sprintf("backend %s series %+v: %d histogram data points, want 1", kind, s, len(hs)), rp)
+			} else {
+				h := hs[0]
+				sum, lo, hi := 0.0, math.Inf(1), math.Inf(-1)
+				for _, v := range s.Vals {
+					sum, lo, hi = sum+v, math.Min(lo, v), math.Max(hi, v)
+				}
+				if h.Count != uint64(len(s.Vals)) || math.Abs(h.Sum-sum) > 1e-9 || !h.HasMin || !h.HasMax || h.Min != lo || h.Max != hi {
+					res.Violate("otlp-histogram-statistics "+kind, fmt.Sprintf("backend %s series %+v: data point count=%d sum=%v min=%v max=%v, the received values have count=%d sum=%v min=%v max=%v", kind, s, h.Count, h.Sum, h.Min, h.Max, len(s.Vals), sum, lo, hi), rp)
+				}
+				if len(s.Tags) > 0 && strings.HasPrefix(s.Tags[0], "gsd_histogram:") {
+					var bounds []float64
+					for _, f := range strings.Split(strings.TrimPrefix(s.Tags[0], "gsd_histogram:"), "_") {
+						if x, err := strconv.ParseFloat(f, 64); err == nil {
+							bounds = append(bounds, x)
+						}
+					}
+					sort.Float64s(bounds)
+					want := make([]uint64, len(bounds)+1)
+					for _, v := range s.Vals {
+						i := sort.SearchFloat64s(bounds, v) // first bound >= v
+						want[i]++
+					}
+					if fmt.Sprint(h.Bounds) != fmt.Sprint(bounds) || fmt.Sprint(h.Buckets) != fmt.Sprint(want) {
+						res.Violate("otlp-histogram-buckets "+kind, fmt.Sprintf("backend %s series %+v: explicit bounds %v bucket counts %v, want %v %v (per bucket, not cumulative)", kind, s, h.Bounds, h.Buckets, bounds, want), rp)
+					}
+				}
 			}
 		}
 		// single series: reference expansion
